@@ -272,12 +272,9 @@ fn failc(clause: &str, class: &str, detail: String) -> Fail {
     Fail::new(clause, detail).with_class(class)
 }
 
-fn bytes_class(want: &[u8], got: &[u8]) -> &'static str {
-    if want.len() != got.len() {
-        "wrong_len"
-    } else {
-        "wrong_bytes"
-    }
+/// outcome class of a successful read that returned other bytes than were stored
+fn bytes_class(_want: &[u8], _got: &[u8]) -> &'static str {
+    "wrong_record"
 }
 
 /// Compare every read-only query on `probes` with `live` (the set of live records).
@@ -742,10 +739,12 @@ fn cached(strategy: CacheWriteStrategy, capacity: usize) -> R<Box<dyn StoreLike>
     CachedBlobStore::with_write_strategy(MemoryBlobStore::new(), cfg, strategy).map(boxed).map_err(|e| e.to_string())
 }
 
-fn dictzip(entropy: DzEntropy, interleave: u8, cache_bytes: usize, min_compress: usize) -> R<Box<dyn StoreLike>> {
+fn dictzip(entropy: DzEntropy, interleave: u8, ratio: f32, cache_bytes: usize, min_compress: usize) -> R<Box<dyn StoreLike>> {
     let mut cfg = DictZipConfig::default();
     cfg.entropy_algorithm = entropy;
     cfg.entropy_interleaved = interleave;
+    // ratio 1.0 = accept the entropy stage whenever it does not expand the blob, so that the decode path is driven
+    cfg.entropy_zip_ratio_require = ratio;
     cfg.cache_size_bytes = cache_bytes;
     cfg.min_compression_size = min_compress;
     cfg.dict_builder_config.use_parallel = false;
@@ -768,12 +767,12 @@ fn register_e1(reg: &mut zverif::Registry) {
             .reopen()
             .depth(3, 4),
     ));
-    for level in [1, 19] {
+    for level in [1, 9] {
         reg.add(Seq(
             StoreSpec::new(&format!("ZstdBlobStore<Memory>[level={level}]"), move |_| Ok(boxed(ZstdBlobStore::new(MemoryBlobStore::new(), level))))
                 .remove_batch()
                 .reopen()
-                .depth(4, if level == 1 { 5 } else { 4 }),
+                .depth(if level == 1 { 4 } else { 3 }, if level == 1 { 5 } else { 4 }),
         ));
     }
     reg.add(Seq(StoreSpec::new("HuffmanBlobStore<Memory>[untrained]", |_| Ok(boxed(HuffmanBlobStore::new(MemoryBlobStore::new()))))));
@@ -835,22 +834,28 @@ fn register_e1(reg: &mut zverif::Registry) {
                 .depth(q.0, q.1),
         ));
     }
-    for (ename, e, il) in [("None", DzEntropy::None, 0u8), ("HuffmanO1x1", DzEntropy::HuffmanO1, 1), ("HuffmanO1x4", DzEntropy::HuffmanO1, 4), ("Fse", DzEntropy::Fse, 0)] {
+    for (ename, e, il, ratio) in [
+        ("None", DzEntropy::None, 0u8, 0.8f32),
+        ("HuffmanO1x1,ratio=0.8", DzEntropy::HuffmanO1, 1, 0.8),
+        ("HuffmanO1x1,ratio=1.0", DzEntropy::HuffmanO1, 1, 1.0),
+        ("HuffmanO1x4,ratio=1.0", DzEntropy::HuffmanO1, 4, 1.0),
+        ("Fse,ratio=1.0", DzEntropy::Fse, 0, 1.0),
+    ] {
         // cache of 1 KiB = one cached record (LruMap capacity 1), min_compression_size 2: "ab"/"zz" take the compress path
         let none = ename == "None";
         reg.add(Seq(
-            StoreSpec::new(&format!("DictZipBlobStore[entropy={ename},cache=1]"), move |_| dictzip(e, il, 1024, 2))
-                .records(&[E, A, ZZ, A64, C300])
-                .batches(&[&[AB, A64], &[E, AB]])
-                .remove_batch()
+            StoreSpec::new(&format!("DictZipBlobStore[entropy={ename},cache=1]"), move |_| dictzip(e, il, ratio, 1024, 2))
+                .records(&[E, ZZ, A64, C300])
+                .batches(&[&[AB, A64]])
                 .depth(if none { 3 } else { 2 }, if none { 4 } else { 3 }),
         ));
     }
     reg.add(Seq(
-        StoreSpec::new("DictZipBlobStore[entropy=None,cache=2,min=64]", |_| dictzip(DzEntropy::None, 0, 2048, 64))
+        StoreSpec::new("DictZipBlobStore[entropy=None,cache=2,min=64]", |_| dictzip(DzEntropy::None, 0, 0.8, 2048, 64))
             .records(&[A, A64, C300])
-            .batches(&[&[AB, A64]])
-            .depth(3, 4),
+            .batches(&[&[E, A64]])
+            .remove_batch()
+            .depth(2, 3),
     ));
 }
 
@@ -1128,14 +1133,18 @@ fn build_trie(variant: &str, data: &[Vec<u8>]) -> R<Built> {
         "builder[default]/sorted_keys" => ("builder", true),
         "builder[default]/unsorted_keys" => ("builder", false),
         "builder[memory_optimized]/unsorted_keys" => ("builder_mem", false),
-        "build_from_key_value_pairs/unsorted_keys" => ("pairs", false),
+        "build_from_key_value_pairs[default]/unsorted_keys" => ("pairs", false),
+        "build_from_key_value_pairs[enable_statistics]/unsorted_keys" => ("pairs_stats", false),
         _ => return Err(format!("bad variant {variant}")),
     };
     let keys: Vec<Vec<u8>> = (0..data.len()).map(|i| trie_key(i, keys_sorted)).collect();
     let (store, may_reorder) = match how {
-        "pairs" => {
+        "pairs" | "pairs_stats" => {
             let pairs: Vec<(Vec<u8>, Vec<u8>)> = keys.iter().cloned().zip(data.iter().cloned()).collect();
-            let cfg = zipora::config::nest_louds_trie::NestLoudsTrieConfig::default();
+            let mut cfg = zipora::config::nest_louds_trie::NestLoudsTrieConfig::default();
+            if how == "pairs_stats" {
+                cfg.enable_statistics = true;
+            }
             (Trie::build_from_key_value_pairs(&pairs, &cfg).map_err(|e| e.to_string())?, false)
         }
         _ => {
@@ -1287,62 +1296,27 @@ fn register_e2(reg: &mut zverif::Registry) {
         build: build_zero_length,
         space_note: "only lists of empty records are accepted (others skipped)",
     }));
-    reg.add(Enum(BulkSpec {
-        name: "NestLoudsTrieBlobStore/bulk".into(),
-        variants: vec![
-            "builder[default]/sorted_keys".into(),
-            "builder[default]/unsorted_keys".into(),
-            "builder[memory_optimized]/unsorted_keys".into(),
-            "build_from_key_value_pairs/unsorted_keys".into(),
-        ],
-        small_max: (2, 3),
-        patterns: true,
-        build: build_trie,
-        space_note: "record i is added under a unique key; where the builder sorts by key the ids are judged as a permutation and get_by_key pins record <-> input",
-    }));
+    for (name, variants) in [
+        // the config decides whether len() works at all (it is read from the optional statistics): one subject per setting
+        (
+            "NestLoudsTrieBlobStore/bulk[statistics=on]",
+            vec!["builder[default]/sorted_keys", "builder[default]/unsorted_keys", "build_from_key_value_pairs[enable_statistics]/unsorted_keys"],
+        ),
+        ("NestLoudsTrieBlobStore/bulk[statistics=off]", vec!["builder[memory_optimized]/unsorted_keys", "build_from_key_value_pairs[default]/unsorted_keys"]),
+    ] {
+        reg.add(Enum(BulkSpec {
+            name: name.into(),
+            variants: variants.into_iter().map(String::from).collect(),
+            small_max: (2, 3),
+            patterns: true,
+            build: build_trie,
+            space_note: "record i is added under a unique key; where the builder sorts by key the ids are judged as a permutation and get_by_key pins record <-> input",
+        }));
+    }
     reg.add(Enum(ZipOffsetSaveLoad));
 }
 
-fn probe() {
-    use std::time::Instant;
-    let mut s = HuffmanBlobStore::new(MemoryBlobStore::new());
-    s.add_training_data(&training());
-    eprintln!("build_tree: {:?}", s.build_tree().map_err(|e| e.to_string()));
-    eprintln!("encode(ab) = {:?}", zipora::entropy::HuffmanEncoder::new(&training()).and_then(|e| e.encode(b"ab")).map_err(|e| e.to_string()));
-    eprintln!("encode(a64) = {:?}", zipora::entropy::HuffmanEncoder::new(&training()).and_then(|e| e.encode(&A64.bytes())).map_err(|e| e.to_string()));
-    let id = BlobStore::put(&mut s, b"ab").unwrap();
-    eprintln!("huffman get(ab) = {:?}", BlobStore::get(&s, id));
-    let id = BlobStore::put(&mut s, &A64.bytes()).unwrap();
-    eprintln!("huffman get(a64) = {:?}", BlobStore::get(&s, id).map(|x| brief(&x)));
-    for (bfs, validate) in [(6u32, true), (2, true), (1, false)] {
-        let t = Instant::now();
-        for _ in 0..10 {
-            let mut cfg = DictZipConfig::default();
-            cfg.cache_size_bytes = 1024;
-            cfg.validate_dictionary = validate;
-            cfg.dict_builder_config.validate_result = validate;
-            cfg.dict_builder_config.max_bfs_depth = bfs;
-            cfg.dict_builder_config.use_parallel = false;
-            cfg.dict_builder_config.enable_progress = false;
-            cfg.dict_builder_config.sample_ratio = 1.0;
-            cfg.dict_builder_config.target_dict_size = 64 * 1024;
-            cfg.dict_builder_config.max_dict_size = 128 * 1024;
-            let mut b = DictZipBlobStoreBuilder::with_config(cfg).unwrap();
-            b.add_training_sample(&training()).unwrap();
-            let _s = b.finish().unwrap();
-        }
-        eprintln!("dictzip build bfs={bfs} validate={validate}: {:?}/10", t.elapsed());
-    }
-    let t = Instant::now();
-    for _ in 0..10 { let _ = Trie::new(TrieBlobStoreConfig::default()).unwrap(); }
-    eprintln!("trie new: {:?}/10", t.elapsed());
-}
-
 fn main() {
-    if std::env::var("C03_PROBE").is_ok() {
-        probe();
-        return;
-    }
     zverif::main_with("C03", |reg, _tier| {
         register_e1(reg);
         register_e2(reg);
